@@ -892,6 +892,8 @@ class _Simu(_IObserver, _params.Updatable, ABC):
             self.__indexMesh = self.__NindexMesh
             self.__listMesh.append(mesh)
             self.__mesh = mesh
+            # look for modifications of the new mesh as well (Translate, Rotate, coord, ...)
+            mesh._Add_observer(self)
 
             # New connectivity invalidates the geometry-derived caches.
             # This cannot live in `Need_Update`, which fires on every Newton
